@@ -110,11 +110,11 @@ prop('C09', units=['ord', 'costs', 'agg', 'bk', 'rnd'], level='proof',
                   ],
      witnesses=['D2a', 'D2b', 'D2c'])
 
-prop('C10', units=['summary', 'bk', 'smd'], level='proof',
-     technique='Verus: get_summary_range_delta_indicies (window of every later loss sale strictly after the last summarised settlement), make_simple_summary_txs (Buy reproduces balance and cost base), make_annual_gains_summary_txs (base Buy of balance + #years, one 1-share Sell per year realising that year net gain), make_summary_txs (generated rows: one Buy per affiliate still holding shares, each once, none left out - through the internal sort; kept rows re-emitted unchanged with explicit unforced superficial losses); make_aggregate_summary_txs and the summary-mode driver; Tx::to_csvtx / Tx::try_from(CsvTx) (a transaction written as a CSV row reads back as the same transaction: encoder ensures csv_encodes, decoder ensures tx_same on every encoded row, lemma_csv_row_roundtrip); theorem_simple_summary_roundtrip / theorem_summary_roundtrip / theorem_buy_block / theorem_scaled_ledgers over the ledger fold (chain) that is the postcondition of txs_to_delta_list',
+prop('C10', units=['summary', 'bk', 'smd', 'drv'], level='proof',
+     technique='Verus: get_summary_range_delta_indicies (window of every later loss sale strictly after the last summarised settlement), make_simple_summary_txs (Buy reproduces balance and cost base), make_annual_gains_summary_txs (base Buy of balance + #years, one 1-share Sell per year realising that year net gain), make_summary_txs (generated rows: one Buy per affiliate still holding shares, each once, none left out - through the internal sort; kept rows re-emitted unchanged with explicit unforced superficial losses); make_aggregate_summary_txs and the summary-mode driver; Tx::to_csvtx / Tx::try_from(CsvTx) (a transaction written as a CSV row reads back as the same transaction: encoder ensures csv_encodes, decoder ensures tx_same on every encoded row, lemma_csv_row_roundtrip); theorem_simple_summary_roundtrip / theorem_summary_roundtrip / theorem_buy_block / theorem_scaled_ledgers over the ledger fold (chain) that is the postcondition of txs_to_delta_list; txs_to_csv_table (portfolio/io/tx_csv.rs, the writer of the summary file and of tx-export-convert): header = the export columns, each once, an optional one exactly when some row needs it; one record per row in order; every value under its own column (table_ok, cell_out); lemma_table_reads_back: read back by column name (the reader contract of parse_tx_csv) record i yields under every written column the trimmed text written for that field and nothing else; lemma_omitted_column: a column left out is empty in every row',
      level_text='Deductive proof (Verus). Code contracts: what make_summary_txs emits, for all delta lists and dates. Round trip (plain summary), as a theorem over the ledger contract: for every history starting without holdings, every split point and every pair of accepted ledgers (full history / generated Buys followed by the later rows denying the same amounts), each later row reports the same gain, balance and cost base and the final holdings agree. Annual-gains mode: the generated rows are under contract, the round trip is not; known finding D16.',
      level_note=BK_NOTE + ' The preconditions of make_summary_txs (settlement order, superficial-loss data only on sales) are proved at its real call site for plain summaries: run_acb_app_summary_to_model -> make_aggregate_summary_txs (unit smd, from the driver\'s ledger_facts); for --summarize-annual-gains the range of years (years_ok) follows from the hypothesis of the properties on the input (calendar years 1900-2100, the uninterpreted predicate practical_input, assumed of parse_tx_csv and carried through sort, partition, split expansion and ledger by dates_from). Hypotheses of the round-trip theorem beyond the contracts: both ledgers are accepted; the re-run denies the same superficial-loss amounts on the kept rows (they are emitted explicitly, and the range contract keeps the last summarised row outside every later window); an affiliate left without shares has no cost base left.',
-     not_covered=['that the re-run accepts the explicit superficial-loss amounts (validation against the recomputed value, 0.001 tolerance)', 'round trip in annual-gains mode', 'CSV text of the summary: number / date / ratio formatting and parsing (C11); the structured row layer under it is covered'],
+     not_covered=['that the re-run accepts the explicit superficial-loss amounts (validation against the recomputed value, 0.001 tolerance)', 'round trip in annual-gains mode', 'that the texts written for numbers / dates / actions / ratios parse back to the same values (Display / FromStr pairs are uninterpreted functions of the value resp. the text; C11); which value lands under which column, and that it is read from that column, is covered'],
      witnesses=['D3', 'D16'])
 
 prop('C12', units=['fx', 'bk', 'drv'], level='proof',
@@ -134,8 +134,8 @@ prop('C13', units=['fx'], level='proof',
 prop('C17_', units=[])
 del PROPS['C17_']
 
-prop('C18', units=['conv', 'qt', 'xlr'], level='proof',
-     technique='Verus: all of FxTracker (implied rate, signed shares == cash amount, implicit conversion amount, pairing errors, unpaired row => Err) and impl Ord for BrokerTx == (settlement date, timestamp, tiebreak class, tiebreak, row); questrade::sheet_to_txs and its per-row handler (the immediately-invoked closure, as a function): one transaction per BUY / SELL / DIS / LIQ row in row order with that row\'s dates, absolute quantity, price, absolute commission, currency and account-derived affiliate (spec function `emitted`), nothing for the documented non-trade activities, and per row the exact FX side effect (USD dividend = its net amount; non-CAD trade = -/+ price x quantity - commission; conversion leg handed on with its net amount and currency), and the whole-sheet cash conservation: the signed share total of the emitted FX rows equals the net USD cash flow of the conversions, USD dividends and non-CAD trades of the sheet (loop invariant fx_bal == flow_sum); excel.rs (unit xlr): read_sheet_header builds the name -> index table of the first row with positions counted over all cells (header_ok), SheetReader::get / get_str / get_opt_dec / get_dec hand out the cell of the current row under the last header cell of that name (spec function `cell`), whatever the column order and whatever blank or non-text header cells there are',
+prop('C18', units=['conv', 'qt', 'xlr', 'drv'], level='proof',
+     technique='Verus: all of FxTracker (implied rate, signed shares == cash amount, implicit conversion amount, pairing errors, unpaired row => Err) and impl Ord for BrokerTx == (settlement date, timestamp, tiebreak class, tiebreak, row); questrade::sheet_to_txs and its per-row handler (the immediately-invoked closure, as a function): one transaction per BUY / SELL / DIS / LIQ row in row order with that row\'s dates, absolute quantity, price, absolute commission, currency and account-derived affiliate (spec function `emitted`), nothing for the documented non-trade activities, and per row the exact FX side effect (USD dividend = its net amount; non-CAD trade = -/+ price x quantity - commission; conversion leg handed on with its net amount and currency), and the whole-sheet cash conservation: the signed share total of the emitted FX rows equals the net USD cash flow of the conversions, USD dividends and non-CAD trades of the sheet (loop invariant fx_bal == flow_sum); excel.rs (unit xlr): read_sheet_header builds the name -> index table of the first row with positions counted over all cells (header_ok), SheetReader::get / get_str / get_opt_dec / get_dec hand out the cell of the current row under the last header cell of that name (spec function `cell`), whatever the column order and whatever blank or non-text header cells there are; the CSV table written from the converted rows (txs_to_csv_table, unit drv) puts every value under its own column and reads back by column name (lemma_table_reads_back)',
      level_text='Deductive proof (Verus) for the FX-tracking and ordering layer of the Questrade converter and for the row loop of sheet_to_txs, for all sheets converted without complaint: which rows yield a transaction, with which fields, what each row does to the FX ledger, and that the FX rows add up to the sheet\'s net USD cash flow. What a cell contains, upper-casing, the account-type pattern, date parsing and the symbol alias table are uninterpreted functions of the text (shim/xl_stubs.rs). The header map and the cell access of excel.rs are verified in unit xlr on stand-ins for the office crate and for the std iterator adapters (each adapter = its strongest postcondition in terms of the closure contract); the SheetReader contract that unit qt assumes is derived there (qt_contract_get_str / qt_contract_get_dec). Witness D7 (blank header cell) stays as a run-time replay.',
      level_note=BK_NOTE + ' String::cmp is an uninterpreted total order; the ".FX" symbol concatenation is a hole. Unit qt: rewrites R29 (the row closure becomes fn row_body, captured variables as parameters, `row_num` dereferenced), R30 (match on string literals / String == literal -> if-chain over a stand-in string equality: Verus gives literal patterns no meaning), holes for the two literal action tables (with their contents), the alias look-up, memo concatenation, the clone of the FX rows; Range, Path are stand-ins; in unit qt SheetReader is a stand-in whose contract is proved in unit xlr for a current row at least as wide as the header (rows of an office::Range all have its width: assumed of the crate). Unit xlr: rewrites R31 (closure with a tuple-pattern parameter -> |__p| { let (a, b) = __p; .. }), R32 (into_iter / HashMap::from_iter -> stand-in constructors of shim/office_stubs.rs, the adapter chain keeps its text), R26 (to_string / Debug text of a cell value = uninterpreted function of the value); String keys looked up by &str: two axioms (shim/office_stubs.rs strkey); Decimal::from_str / from_f64 are functions of their argument, from_i64 is exact.',
      not_covered=['the office crate itself (xlsx decoding, that all rows of a Range have the same width)', 'tx_export_convert_impl option filters (--account, --security, --no-fx, --no-sort): regex / iterator code'],
